@@ -865,6 +865,28 @@ func replicas(c Cfg, in, out string, seed int64, nbatch int) {
 			if dead {
 				continue
 			}
+			// replica C: a follower as it really is - nobody waits for the entries' outcomes
+			{
+				cr := storage.NewVerifPartitionSM(c.Index.New(u))
+				for i := range logOps {
+					ev := revent{Ev: "apply", Hid: hid, R: "C", Idx: i + 1}
+					fill(&ev, logOps[i])
+					out := cr.ApplyBytes(data[i])
+					ev.Res = "unobserved"
+					if out.Panic != "" {
+						ev.Res = "panic"
+					} else if out.ProcessErr != "" {
+						ev.Res = "fatal" // the ready loop would log.Fatal
+					}
+					ev.Errs = [][]interface{}{}
+					st, _ := hx.Project(cr.Index(), u, c.Keys)
+					ev.St = &st
+					enc.Encode(ev)
+					if ev.Res != "unobserved" {
+						break
+					}
+				}
+			}
 			for cut := 0; cut <= len(logOps); cut++ {
 				froms := []int{0}
 				if cut >= 1 {
